@@ -29,6 +29,8 @@ TARGETS = ["IbicusModel.Props.C10", "IbicusModel.Lemmas.GenDebiasers", "IbicusMo
 GEN = ["Debiasers", "IsimipFreq", "IsimipVars", "IsimipSteps"]  # IsimipSteps: per-element logic of steps 2-7 (tier A)
 TARGETS += ["IbicusModel.Lemmas.GenDebWinSdm"]  # tier A of SDM relative (`_apply_on_window_relative_sdm` denotes Model.Debiasers.sdmRelative) and CDFt SSR with one draw list
 GEN += ["DebWin"]  # Gen.DebWin: dataflow programs extracted by translator/extract_debiasers.py
+TARGETS += ["IbicusModel.Lemmas.GenIsimipStep6"]  # tier A of ISIMIP step 6 (`_step6_adjust_values_between_thresholds`: fixed fit arguments from the has_* flags, fallback structure; `step6`; `_apply_on_window`)
+GEN += ["IsimipStep6"]  # Gen.IsimipStep6: symbolic reading by translator/extract_isimip_step6.py
 
 DAY = 86400.0
 THR_ISIMIP = 0.1 / DAY  # lower_threshold of ISIMIP pr, pr_lower_threshold of SDM, censoring threshold of QM censored
